@@ -128,7 +128,13 @@ def gen_incrate(pid):
             else:
                 files[host] += f'{ALLOW}\n#[path = "{HARNESS_DIR}/{f}"] pub(crate) mod verif_{mod};\n'
                 hostpath = host.replace("encoder_", "encoder::")
-                disp.append(f"crate::{hostpath}::verif_{mod}::dispatch")
+                if host in ("encoder_text", "encoder_pb"):
+                    # `text` / `pb` are private to `encoder`: reach the dispatcher through `encoder` itself
+                    sub = host.split("_")[1]
+                    files["encoder_mod"] += f"pub(crate) fn verif_dispatch_{sub}_{mod}(name: &str) -> Option<fn()> {{ {sub}::verif_{mod}::dispatch(name) }}\n"
+                    disp.append(f"crate::encoder::verif_dispatch_{sub}_{mod}")
+                else:
+                    disp.append(f"crate::{hostpath}::verif_{mod}::dispatch")
     body = "\n".join(f"        if let Some(f) = {d_}(name) {{ return Some(f); }}" for d_ in disp)
     modrs = (f"#[doc(hidden)]\n{ALLOW}\npub mod verif_incrate {{\n" + "\n".join(root_mods) +
              f"\n    pub fn dispatch(name: &str) -> Option<fn()> {{\n{body}\n        None\n    }}\n}}\n")
